@@ -880,8 +880,11 @@ static void mps_set_bound (
 	}
 	else if (!strcmp (bndtype, "UI"))
 	{
+		/* a 0.0 upper bound is set, too, it only comes with a warning */
+		int newbound = !lp->ubind[colind];
+
 		msg = EGLPNUM_TYPENAME_ILLraw_set_upperBound (lp, colind, bnd);
-		if (msg == NULL)
+		if (newbound)
 		{
 			lp->intmarker[colind] = 1;
 		}
